@@ -289,6 +289,8 @@ def build_corpus(seed: int, n_templates: int, max_bytes: int) -> List[Dict[str, 
     # (observation outside the claimed properties: a note consisting of blanks only makes remove_indentation
     # raise ValueError('min() iterable argument is empty') - C08's business; kept as a failing document)
     docs.append(("blank-note", "Table w {\n  a int\n  Note: '   '\n}\n"))
+    docs.append(("m2m-twice", "Table authors {\n  id int [pk]\n  alt_id int\n}\n\nTable books {\n  id int [pk]\n  alt_id int\n}\n\n"
+                 "Ref: authors.id <> books.id\n\nRef: authors.alt_id <> books.alt_id\n\nRef: books.id <> authors.alt_id\n"))
     docs.append(("empty", ""))
     docs.append(("only-comment", "// nothing here\n"))
     docs.append(("blank-lines", "\n\n  \n\t\n"))
